@@ -309,6 +309,114 @@ def r4_od_sibling(ctx, F):
               bad='on-demand worker: RunToCompletion does not switch the worker out of request-driven mode')
 
 
+def queue_emptiness(w, queues):
+    """Forward must-analysis over the worker closure: for every block, the set of local job queues that are
+    KNOWN to be empty on entry (intersection over predecessors; loop fixpoint). Sources of knowledge:
+    `VecDeque::new()`, the donor of `a.append(&mut b)`, `mem::swap` (exchanges what is known), the true edge of
+    `q.is_empty()`; anything else that gets `&mut q` (check_block, pop into q, push) forgets it.
+    Returns (entry sets, function giving the set just before the call terminating a block)."""
+    live = sorted(w.live_blocks())
+
+    def qof(operand):
+        if operand.get('k') not in ('copy', 'move'):
+            return None
+        v = noref(w.val(operand))
+        if v.kind == 'local' and not v.projs and v.key in queues:
+            return v.key
+        if v.kind == 'call' and not v.projs:
+            # a queue with one definition (`let mut q = VecDeque::new()`) is known by that call
+            for q in queues:
+                ds = [d for d in w.defs.get(q, []) if d[1] == 'call' or not d[2]['lhs']['p']]
+                if len(ds) == 1 and ds[0][1] == 'call' and ds[0][0] == v.key:
+                    return q
+        if operand['place']['l'] in queues and not [e for e in operand['place']['p'] if e != 'deref']:
+            return operand['place']['l']
+        return None
+
+    def transfer_stmts(i, known):
+        known = set(known)
+        for st in w.blocks[i]['stmts']:
+            if st['k'] != 'assign' or st['lhs']['p']:
+                continue
+            l = st['lhs']['l']
+            if l in queues:
+                rv = st['rv']
+                src = qof(rv['op']) if rv['k'] == 'use' else None
+                if src is not None and src in known:
+                    known.add(l)
+                else:
+                    known.discard(l)
+        return known
+
+    def transfer_term(i, known):
+        """-> {successor: known set}"""
+        known = set(known)
+        t = w.blocks[i]['term']
+        out = {}
+        if t['k'] == 'call':
+            c = w.call_at(i)
+            qs = [qof(a) for a in t['args']]
+            if c is not None and c.is_('VecDeque::append') and len(qs) >= 2 and qs[0] is not None and qs[1] is not None:
+                if qs[1] not in known:
+                    known.discard(qs[0])
+                known.add(qs[1])
+            elif c is not None and c.is_('mem::swap') and len(qs) >= 2 and qs[0] is not None and qs[1] is not None:
+                a_, b_ = qs[0] in known, qs[1] in known
+                known.discard(qs[0]); known.discard(qs[1])
+                if b_:
+                    known.add(qs[0])
+                if a_:
+                    known.add(qs[1])
+            elif c is not None and c.is_('VecDeque::is_empty', 'VecDeque::len'):
+                pass
+            else:
+                for a, q in zip(t['args'], qs):
+                    if q is not None and w.locals[a['place']['l']]['ty'].startswith('&mut'):
+                        known.discard(q)
+                    elif q is not None and a.get('k') == 'move' and not a['place']['p'] and a['place']['l'] == q:
+                        known.discard(q)
+            if not t['dest']['p'] and t['dest']['l'] in queues:
+                if c is not None and c.is_('VecDeque::new', 'Default::default', 'VecDeque::with_capacity'):
+                    known.add(t['dest']['l'])
+                else:
+                    known.discard(t['dest']['l'])
+        for s_ in w.succ[i]:
+            out[s_] = set(known)
+        # the true edge of `q.is_empty()`
+        return out
+    # is_empty edges
+    empty_edges = {}
+    for c in w.calls_to('VecDeque::is_empty'):
+        q = qof(c.args[0])
+        if q is None:
+            continue
+        for e in w.branch(c, True):
+            empty_edges.setdefault(e, set()).add(q)
+    entry = dict((i, None) for i in live)
+    entry[0] = set()
+    changed = True
+    rounds = 0
+    while changed and rounds < 60:
+        changed = False
+        rounds += 1
+        for i in live:
+            if entry[i] is None:
+                continue
+            k = transfer_stmts(i, entry[i])
+            for s_, ks in transfer_term(i, k).items():
+                if s_ not in entry:
+                    continue
+                ks = ks | empty_edges.get((i, s_), set())
+                new = ks if entry[s_] is None else (entry[s_] & ks)
+                if new != entry[s_]:
+                    entry[s_] = new
+                    changed = True
+
+    def before_term(i):
+        return transfer_stmts(i, entry.get(i) or set())
+    return entry, before_term, qof
+
+
 def r5_worker_queue(ctx, F, rule='C19-R5', with_join=True):
     """worker-local job queues are never overwritten while they may be non-empty"""
     for strat in ('BFS', 'DFS', 'OD'):
@@ -326,7 +434,17 @@ def r5_worker_queue(ctx, F, rule='C19-R5', with_join=True):
                         queues.add(l)
             if not queues:
                 raise AnchorMissing('%s worker: local job queues' % strat)
+            entry_empty, empty_before_term, qof = queue_emptiness(w, queues)
             bad = []
+            # `mem::swap(a, b)` of two job queues moves jobs only if one side is known to be empty (then it is an
+            # append); otherwise the contents change places - the queue about to be processed is replaced
+            for c in w.calls_to('mem::swap'):
+                qa, qb = (qof(c.args[0]), qof(c.args[1])) if len(c.args) >= 2 else (None, None)
+                if qa is None or qb is None:
+                    continue
+                known = empty_before_term(c.bb)
+                if qa not in known and qb not in known:
+                    bad.append(('%s<->%s' % (w.debug_name(qa), w.debug_name(qb)), c.span))
             for q in sorted(queues):
                 qdefs = [d for d in w.defs.get(q, []) if d[1] == 'call' or not d[2]['lhs']['p']]
                 if len(qdefs) < 2:
@@ -355,6 +473,10 @@ def r5_worker_queue(ctx, F, rule='C19-R5', with_join=True):
                             te = w.branch(c, True)
                             if te and w.edges_dominate(te, i, frm=[c.bb]) and w.dominates(c.bb, i):
                                 guarded = True
+                    if not guarded and si != 'call' and q in (entry_empty.get(i) or set()):
+                        guarded = True        # known empty by the emptiness analysis
+                    if not guarded and si == 'call' and q in empty_before_term(i):
+                        guarded = True
                     if not guarded:
                         bad.append((w.debug_name(q), st['span'] if si != 'call' else w.call_at(i).span))
             ctx.check(not bad, rule, 'queue-never-overwritten-while-non-empty', w,
@@ -366,7 +488,18 @@ def r5_worker_queue(ctx, F, rule='C19-R5', with_join=True):
                 # everything left in the processed queue is handed back to `pending`
                 app = [c for c in w.calls_to('VecDeque::append') if w.dominates(cc.bb, c.bb)]
                 ok = any(noref(w.val(c.args[1])) == qv for c in app)
-                r = w.reach([cc.target], cut_blocks=[c.bb for c in app if noref(w.val(c.args[1])) == qv])
+                movers = [c.bb for c in app if noref(w.val(c.args[1])) == qv]
+                # ... or exchanged with a queue that is known to be empty (then the swap is that append)
+                for c in w.calls_to('mem::swap'):
+                    if not w.dominates(cc.bb, c.bb) or len(c.args) < 2:
+                        continue
+                    qa, qb = qof(c.args[0]), qof(c.args[1])
+                    qvq = qof(cc.args[3])
+                    other = qa if (qb is not None and qb == qvq) else qb if (qa is not None and qa == qvq) else None
+                    if other is not None and other in empty_before_term(c.bb):
+                        movers.append(c.bb)
+                        ok = True
+                r = w.reach([cc.target], cut_blocks=movers)
                 ctx.check(ok and cc.bb not in r, rule, 'processed-queue-handed-back', w,
                           good='after a block the remaining/new jobs are appended back to `pending`',
                           bad='on-demand worker: jobs left in the processed queue are not appended back to '
